@@ -49,7 +49,7 @@ def _scn_cfgs(lines):
     return out
 
 
-def core_check(prop, tier, mcs, lines, design_ref, what, t0, extra_cov=None, timeout=20, module="TraceCore.tla", cfg="TraceCore.cfg", passes=1):
+def core_check(prop, tier, mcs, lines, design_ref, what, t0, extra_cov=None, timeout=20, module="TraceCore.tla", cfg="TraceCore.cfg", passes=1, extra_parts=None):
     """shared tail: drive + validate + confirm + evidence.  mcs: list of model_check results"""
     exe = vlib.build()
     states = sum(m.get("distinct", 0) for m in mcs)
@@ -75,6 +75,18 @@ def core_check(prop, tier, mcs, lines, design_ref, what, t0, extra_cov=None, tim
             skipped += 1
     confirmed = vlib.confirm_bad(prop, tier, exe, todo, module=module, cfg=cfg, timeout=timeout, passes=passes) if todo else []
     extra_cov = dict(extra_cov or {}, rejected_not_reconfirmed_same_class=skipped)
+    # further parts of the same property judged by another validator module
+    for (plines, pmod, pcfg, ptag) in (extra_parts or []):
+        m2 = vlib.drive_and_validate(prop, tier, exe, plines, module=pmod, cfg=pcfg, timeout=timeout, tag=ptag)
+        u2 = {}
+        for b in m2["bad"]:
+            u2.setdefault((b["script"], b["s"]), b)
+        c2 = vlib.confirm_bad(prop, tier, exe, list(u2.values())[:60], module=pmod, cfg=pcfg, timeout=timeout) if u2 else []
+        confirmed += c2
+        for k in ("scenarios", "events", "lines", "tlc_states", "restarts"):
+            merged[k] += m2.get(k, 0)
+        merged["bad"] += m2["bad"]
+        lines = lines + plines
     cov = {"states": states + merged["tlc_states"], "transitions": trans + merged["lines"],
            "model_states": states, "model_transitions": trans,
            "traces_validated_against_impl": merged["scenarios"], "evaluations": merged["events"],
@@ -694,10 +706,25 @@ def c20(tier):
         vals = [rng.randrange(-2 ** 31, 2 ** 31) for _ in range(2000)] + [0, -1, 1, 2 ** 31 - 1, -2 ** 31]
         for big in (0, 1):
             G.enc(S, sub, big, "i", G.val_tokens("i", vals))
+    # ADPCM reference decoders: IMA in the WAV / W64 and AIFF block layouts, Microsoft ADPCM; every legal block size, 1-2 channels
+    A = scen.Script()
+    rates = [8000, 11025, 22050, 44100] if tier == "quick" else [8000, 11025, 12000, 16000, 22050, 24000, 32000, 44100, 48000]
+    for ch in (1, 2):
+        for rate in rates:
+            for layout, fmt in (("wavima", 0x10012), ("wavima", 0xb0012), ("ms", 0x10013), ("ms", 0xb0013), ("aiffima", 0x20012)):
+                if layout == "aiffima" and rate != rates[0]:
+                    continue
+                spb = scen.block_hint(fmt, ch, rate)
+                rc = rate * ch
+                ba = 34 * ch if layout == "aiffima" else (256 if rc < 12000 else 512 if rc < 23000 else 1024 if rc < 44000 else 2048)
+                for kind in ("rand", "ext", "hdr"):
+                    for rep in range(1 if tier == "quick" else 6):
+                        gen_conv.adpcm(A, layout, fmt, ch, rate, spb, 3 if layout != "aiffima" else 12, rng.randint(1, 10 ** 6), kind, ba)
     mcs = [_conv_mc()]
     return core_check("C20", tier, mcs, S.lines, "DESIGN.md section 6 C20",
-                      "G.711: all 256 codes of both laws decoded through short/int/float/double (normalisation on and off) and all 65536 short inputs, their int images and their float/double images encoded, compared with the TLA+ definitions SfG711 (from the Recommendation); portable IEEE-754 float/double serialisers forced with SFC_TEST_IEEE_FLOAT_REPLACE: %d float and %d double bit patterns (both signs, every float exponent, mantissa classes) written and read back, little and big endian, bytes vs bit pattern; byte order of 16/24/32 bit integers (BytesOf)" % (len(pats), len(dp)),
-                      t0, module="TraceConv.tla", cfg="TraceConv.cfg", extra_cov={"exhaustive_g711": True, "adpcm_reference_decoders": "not implemented in this version, see DESIGN.md section 8"})
+                      "G.711: all 256 codes of both laws decoded through short/int/float/double (normalisation on and off) and all 65536 short inputs, their int images and their float/double images encoded, compared with the TLA+ definitions SfG711 (from the Recommendation); portable IEEE-754 float/double serialisers forced with SFC_TEST_IEEE_FLOAT_REPLACE: %d float and %d double bit patterns (both signs, every float exponent, mantissa classes) written and read back, little and big endian, bytes vs bit pattern; byte order of 16/24/32 bit integers (BytesOf); ADPCM blocks (see coverage.adpcm) vs the reference decoders of SfAdpcm" % (len(pats), len(dp)),
+                      t0, module="TraceConv.tla", cfg="TraceConv.cfg", extra_parts=[(A.lines, "TraceAdpcm.tla", "TraceAdpcm.cfg", "adpcm")],
+                      extra_cov={"exhaustive_g711": True, "adpcm": "IMA (WAV, W64, AIFF layouts) and MS ADPCM blocks with random, extreme and hostile-header bytes decoded by the library and by spec/SfAdpcm.tla; block sizes 256..2048 (every size wavlike_srate2blocksize produces), 1-2 channels"})
 
 
 def c02(tier):
